@@ -30,6 +30,7 @@ Fixpoint sx_obj (o : obj) : sx :=
   | ONoneType => SA "NoneType"
   | OInst _ k f a sts => SL [SA "inst"; sx_ckind k; sx_obj f; sx_obj a; SL (map sx_obj sts)]
   | OMark => SA "MARK"
+  | OByteArray s => SL [SA "ba"; sx_str s]
   end.
 
 (* outcome class as the harness observes it *)
@@ -58,6 +59,8 @@ Definition sx_err_fine (e : err) : sx :=
       | CallRaised => "CallRaised"
       | BuildRaised => "BuildRaised"
       | Truncated => "EOFError"
+      | OutOfModel => "OutOfModel"
+      | Malformed k => if N.eqb k 4 then "OverflowError" else if N.eqb k 3 then "BadArgument" else "UnpicklingError"
       end).
 
 Definition resolved_of (tr : list event) : list sx :=
@@ -191,6 +194,9 @@ Definition show_op (o : op) : string :=
   | NEWOBJ => "NEWOBJ" | NEWOBJ_EX => "NEWOBJ_EX" | REDUCE => "REDUCE" | BUILD => "BUILD"
   | BINPERSID => "BINPERSID" | PERSID s => a1 "PERSID" (show_pystr s)
   | EXT1 c => a1 "EXT1" (show_Z c) | EXT2 c => a1 "EXT2" (show_Z c) | EXT4 c => a1 "EXT4" (show_Z c)
+  | STRING s => a1 "STRING" (show_pystr s) | BINSTRING s => a1 "BINSTRING" (show_pystr s)
+  | SHORT_BINSTRING s => a1 "SHORT_BINSTRING" (show_pystr s) | BYTEARRAY8 s => a1 "BYTEARRAY8" (show_pystr s)
+  | NEXT_BUFFER => "NEXT_BUFFER" | READONLY_BUFFER => "READONLY_BUFFER"
   end.
 Fixpoint show_ops (l : list op) : string :=
   match l with [] => "" | o :: r => show_op o ++ nl ++ show_ops r end.
@@ -205,3 +211,127 @@ Fixpoint show_accepts (l : list (list op * pv)) : string :=
   | [] => ""
   | (p, d) :: r => (if accepts p d then "T" else "F") ++ show_accepts r
   end.
+
+(** * The byte layer (Pickle/Bytes.v) *)
+From DD Require Import Pickle.Bytes.
+
+Definition tlook {A : Type} (t : list (list N * A)) (l : list N) : option A :=
+  match find (fun p => pystr_eqb (fst p) l) t with Some p => Some (snd p) | None => None end.
+(* measured on the C library functions (C dialect) or on pickletools' readers (genops dialect):
+   only the lines the function accepts and the decoder does not read itself *)
+Definition table_textw (ints : list (list N * intres)) (longs idxs : list (list N * Z))
+           (floats : list (list N * fl)) (strings : list (list N * pystr)) : textw :=
+  mkTextw (tlook ints) (tlook longs) (tlook idxs) (tlook floats) (tlook strings).
+
+(* pickletools.genops: sequential, FRAME skipped, no minimum line length; names and persistent ids
+   through escape_decode + ASCII (identity on plain ASCII without backslash, table otherwise),
+   BINSTRING as latin-1 *)
+Definition is_quote_b (q : N) : bool := N.eqb q 39 || N.eqb q 34.
+Definition genops_dialect (tw : textw) (names : list (list N * pystr)) : dialect :=
+  mkDialect false false (c_int tw) (c_long tw) (c_idx tw) (tx_float tw)
+            (fun l => if plain_ascii l then Some l else tlook names l)
+            (fun l => if plain_ascii l then Some l else tlook names l)
+            rue_dec
+            (fun l => match l with [q] => if is_quote_b q then Some [] else None | _ => c_string tw l end)
+            (fun l => Some l).
+
+(* an opcode as pickletools.genops reports it: [name; argument] *)
+Definition sx_gop (o : op) : sx :=
+  let z (n : string) (x : Z) := SL [SA n; SZ x] in
+  let s (n : string) (x : pystr) := SL [SA n; sx_str x] in
+  match o with
+  | PROTO n => z "PROTO" n | FRAME n => z "FRAME" n
+  | STOP => SL [SA "STOP"] | POP => SL [SA "POP"] | POP_MARK => SL [SA "POP_MARK"] | DUP => SL [SA "DUP"]
+  | MARK => SL [SA "MARK"] | MEMOIZE => SL [SA "MEMOIZE"]
+  | PUT i => z "PUT" i | BINPUT i => z "BINPUT" i | LONG_BINPUT i => z "LONG_BINPUT" i
+  | GET i => z "GET" i | BINGET i => z "BINGET" i | LONG_BINGET i => z "LONG_BINGET" i
+  | NONE => SL [SA "NONE"] | NEWTRUE => SL [SA "NEWTRUE"] | NEWFALSE => SL [SA "NEWFALSE"]
+  | INT x => z "INT" x | INTB b => SL [SA "INT"; sx_bool b]
+  | BININT x => z "BININT" x | BININT1 x => z "BININT1" x | BININT2 x => z "BININT2" x
+  | LONG x => z "LONG" x | LONG1 x => z "LONG1" x | LONG4 x => z "LONG4" x
+  | FLOAT f => SL [SA "FLOAT"; sx_fl f] | BINFLOAT f => SL [SA "BINFLOAT"; sx_fl f]
+  | UNICODE x => s "UNICODE" x | BINUNICODE x => s "BINUNICODE" x
+  | SHORT_BINUNICODE x => s "SHORT_BINUNICODE" x | BINUNICODE8 x => s "BINUNICODE8" x
+  | BINBYTES x => s "BINBYTES" x | SHORT_BINBYTES x => s "SHORT_BINBYTES" x | BINBYTES8 x => s "BINBYTES8" x
+  | EMPTY_LIST => SL [SA "EMPTY_LIST"] | EMPTY_DICT => SL [SA "EMPTY_DICT"] | EMPTY_TUPLE => SL [SA "EMPTY_TUPLE"]
+  | EMPTY_SET => SL [SA "EMPTY_SET"]
+  | APPEND => SL [SA "APPEND"] | APPENDS => SL [SA "APPENDS"] | SETITEM => SL [SA "SETITEM"]
+  | SETITEMS => SL [SA "SETITEMS"] | ADDITEMS => SL [SA "ADDITEMS"]
+  | TUPLE => SL [SA "TUPLE"] | TUPLE1 => SL [SA "TUPLE1"] | TUPLE2 => SL [SA "TUPLE2"] | TUPLE3 => SL [SA "TUPLE3"]
+  | FROZENSET => SL [SA "FROZENSET"] | LIST => SL [SA "LIST"] | DICT => SL [SA "DICT"]
+  | GLOBAL m n => s "GLOBAL" (m ++ 32%N :: n)%list | STACK_GLOBAL => SL [SA "STACK_GLOBAL"]
+  | INST m n => s "INST" (m ++ 32%N :: n)%list | OBJ => SL [SA "OBJ"]
+  | NEWOBJ => SL [SA "NEWOBJ"] | NEWOBJ_EX => SL [SA "NEWOBJ_EX"] | REDUCE => SL [SA "REDUCE"] | BUILD => SL [SA "BUILD"]
+  | BINPERSID => SL [SA "BINPERSID"] | PERSID x => s "PERSID" x
+  | EXT1 c => z "EXT1" c | EXT2 c => z "EXT2" c | EXT4 c => z "EXT4" c
+  | STRING x => s "STRING" x | BINSTRING x => s "BINSTRING" x | SHORT_BINSTRING x => s "SHORT_BINSTRING" x
+  | BYTEARRAY8 x => s "BYTEARRAY8" x
+  | NEXT_BUFFER => SL [SA "NEXT_BUFFER"] | READONLY_BUFFER => SL [SA "READONLY_BUFFER"]
+  end.
+
+(* ["ok" | "raises"; the opcodes produced] *)
+Definition sx_genops (d : dialect) (bs : list N) : sx :=
+  let '(ops, e, _) := bdecode d bs in
+  SL [SA (match e with DStop => "ok" | _ => "raises" end); SL (map sx_gop ops)].
+
+Definition sx_dend (e : dend) : sx :=
+  SA (match e with
+      | DStop => "stop" | DEof => "eof" | DTrunc => "truncated" | DBadOpcode _ => "badopcode"
+      | DBadArg => "badarg" | DTooBig => "toobig" | DFuel => "fuel"
+      end).
+
+(* does the verdict of the run depend on the call / build oracles or on an object the model does not follow *)
+Definition is_call_ev (e : event) : bool :=
+  match e with ECall _ _ _ | EBuild _ _ => true | _ => false end.
+Fixpoint before_call (tr : list event) : list event :=
+  match tr with
+  | [] => []
+  | e :: r => if is_call_ev e then [] else e :: before_call r
+  end.
+Definition oracle_free (r : result) : bool :=
+  let '(out, tr) := r in
+  negb (existsb is_call_ev tr) && match out with Err OutOfModel => false | _ => true end.
+Fixpoint sx_prefix (a b : list sx) : bool :=
+  match a, b with
+  | [], _ => true
+  | x :: a', y :: b' => sx_eqb x y && sx_prefix a' b'
+  | _ :: _, [] => false
+  end.
+(* [real] = what the harness observed: [class; failing name; resolved names; value].
+   exact (the oracles were measured for this very stream) or oracle-free run: the model's own observation.
+   Otherwise only what precedes the first call is comparable: the names resolved before it must be
+   the first names the implementation resolved; the answer is [real] itself when they are. *)
+(* decoding errors whose Python exception class is certain: running out of input where an opcode is
+   expected is EOFError, an unknown opcode is UnpicklingError *)
+Definition exc_ok (r : result) (exc : string) : bool :=
+  match fst r with
+  | Err Truncated => String.eqb exc "EOFError"
+  | Err (Malformed k) => if N.eqb k 2 then String.eqb exc "UnpicklingError" else true
+  | _ => true
+  end.
+Definition sx_bytes_verdict (exact with_value : bool) (exc : string) (r : result) (real : sx) : sx :=
+  if exact || oracle_free r then
+    if exc_ok r exc then sx_result with_value r else SL [SA "exception-mismatch"; sx_result_fine r]
+  else
+    match real with
+    | SL [c; f; SL resolved; v] =>
+        if sx_prefix (resolved_of (before_call (snd r))) resolved then real
+        else SL [SA "prefix-mismatch"; SL (resolved_of (before_call (snd r)))]
+    | _ => SA "bad-observation"
+    end.
+(* how the comparison of a stream was made: "exact" / "oracle-free" / "prefix" (informational) *)
+Definition verdict_mode (exact : bool) (r : result) : string :=
+  if exact then "exact" else if oracle_free r then "oracle-free" else "prefix".
+
+(* [decoded payload or raises; resolved names] of a real dump given as BYTES *)
+Definition sx_load_bytes (w : world) (d : dialect) (bs : list N) : sx :=
+  let '(out, tr) := load_content w d bs in
+  match out with
+  | Done o => SL [sx_opv (decode o); SL (resolved_of tr)]
+  | Err e => SL [sx_err_class e; SL (resolved_of tr)]
+  end.
+(* byte strings printed as decimal numbers, one string per line *)
+Fixpoint show_bytes (l : list N) : string :=
+  match l with [] => "" | b :: r => show_N b ++ " " ++ show_bytes r end.
+Fixpoint show_dumps (l : list (list N)) : string :=
+  match l with [] => "" | p :: r => show_bytes p ++ nl ++ show_dumps r end.
